@@ -14,6 +14,7 @@ MCNext == /\ n < MaxOps /\ n' = n + 1
              \/ \E d \in Dialogs, m \in Methods : InDialog(d, m) /\ hist' = Append(hist, Ev("indialog", d, m, ""))
              \/ \E d \in Dialogs, b \in Backs : SubscribeAnswered(d, b) /\ hist' = Append(hist, Ev("bsub", d, "", b))
              \/ Unrelated /\ hist' = Append(hist, Ev("unrelated", "", "", ""))
+             \/ UptimePasses /\ ~due /\ hist' = Append(hist, Ev("uptime", "", "", ""))
 MCSpec == MCInit /\ [][MCNext]_mcvars
 PropView == <<vars, n>>
 EmitInv == (n = MaxOps) => CSVWrite("%1$s", <<ToJson(hist)>>, IOEnv.OUT)
